@@ -17,6 +17,14 @@
 
 #define LEX_EOF (-1)
 
+/* oracle code is specification, not cproc code: it must not add safety obligations of its own to a unit's C19 count */
+#pragma CPROVER check push
+#pragma CPROVER check disable "pointer"
+#pragma CPROVER check disable "bounds"
+#pragma CPROVER check disable "pointer-overflow"
+#pragma CPROVER check disable "signed-overflow"
+#pragma CPROVER check disable "conversion"
+
 /* ------------------------------------------------------------------ 6.4.2.1 / 5.2.1 character classes */
 static inline int lex_isdigit(int c)    { return c >= '0' && c <= '9'; }
 static inline int lex_isnondigit(int c) { return c == '_' || (c >= 'a' && c <= 'z') || (c >= 'A' && c <= 'Z'); }
@@ -286,5 +294,7 @@ lex_is_bitint(const unsigned char *b)
 #undef LEX_X
 	return 0;
 }
+
+#pragma CPROVER check pop
 
 #endif
